@@ -55,6 +55,7 @@ def env():
             atoms={
                 "Any": typing.Any,
                 "int": int, "float": float, "str": str, "bool": bool, "bytes": bytes, "NoneType": type(None),
+                "NoneLit": None,  # `None` spelled literally: typing.List[None] normalises it, list[None] / dict[str, None] keep it
                 "U": U, "S": S,
                 "Lit1a": typing.Literal[1, "a"], "LitTrue": typing.Literal[True],
                 "int_ge0": bounded(int, ge=0), "int_gt0": bounded(int, gt=0),
@@ -66,7 +67,7 @@ def env():
     return _ENV
 
 
-ATOMS = ["Any", "int", "float", "str", "bool", "bytes", "NoneType", "U", "S", "Lit1a", "LitTrue",
+ATOMS = ["Any", "int", "float", "str", "bool", "bytes", "NoneType", "NoneLit", "U", "S", "Lit1a", "LitTrue",
          "int_ge0", "int_gt0", "float_le0", "float_lt0", "int_ge1_le2", "shortstr"]
 CLASS_ATOMS = ["int", "float", "str", "bool", "bytes", "U", "S"]
 SMALL_ATOMS = ["int", "str", "NoneType", "Any"]
@@ -151,7 +152,7 @@ def conforms(v, t):
             return isinstance(v, bool)
         if n == "bytes":
             return isinstance(v, bytes)
-        if n == "NoneType":
+        if n in ("NoneType", "NoneLit"):
             return v is None
         if n == "U":
             return isinstance(v, e["U"])
@@ -258,8 +259,8 @@ def base_pool():
     e = env()
     U, USub, S = e["U"], e["USub"], e["S"]
     return [
-        None, True, False, 0, 1, -1, 2, 3, 0.0, 1.0, -0.5, 2.5, "a", "", "b", "ab", b"", b"x",
-        [], [1], ["a"], [1, "a"], [None], [[1]], [0.5], [True],
+        None, True, False, 0, 1, -1, 2, 3, 0.0, 1.0, -0.5, 2.5, float("nan"), "a", "", "b", "ab", b"", b"x",
+        [], [1], ["a"], [1, "a"], [None], [[1]], [0.5], [True], [float("nan")],
         (), (1,), (1, "a"), ("a", 1), (1, 1, 1), ("a", "a"), (None, None), ((1,), 1),
         set(), {1}, {"a"}, {1, "a"}, {None},
         {}, {"a": 1}, {1: "a"}, {"a": "a"}, {1: 1}, {"a": [1]}, {None: None},
@@ -276,6 +277,7 @@ ATOM_GOOD = {
     "bool": lambda e: [True, False],
     "bytes": lambda e: [b"x"],
     "NoneType": lambda e: [None],
+    "NoneLit": lambda e: [None],
     "U": lambda e: [e["U"](), e["USub"]()],
     "S": lambda e: [e["S"](x=2)],
     "Lit1a": lambda e: [1, "a"],
@@ -295,6 +297,7 @@ ATOM_BAD = {
     "bool": lambda e: [1, 0, "True"],
     "bytes": lambda e: ["x", 1],
     "NoneType": lambda e: [0, "", False],
+    "NoneLit": lambda e: [0, "", False],
     "U": lambda e: [e["S"](), e["U"], object()],
     "S": lambda e: [e["U"](), {"x": 1}, e["S"]],
     "Lit1a": lambda e: [2, "b", 1.5, "A"],
